@@ -18,8 +18,9 @@ PROBES = ["lock_contention", "overlapping_loads"]
 RULE = ("seeded runs; a run = one product on simfs/local storage opened once, 4 actor sets "
         "(scenario in {same-variable, different-images, pickled-copy, mixed}; 2-3 loader actors "
         "with 1-2 selections each) x 12 (quick) / 40 (thorough) seeded schedules each; the "
-        "scheduler decides every switch at open/seek/read/close/lock-acquire points (thorough: "
-        "also PCT priorities and <=3 line-level pre-emptions inside ceos_alos2 frames); each "
+        "scheduler decides every switch at open/seek/read/close/lock-acquire points (modes: "
+        "uniform random with a switch probability, PCT priorities, and <=3 forced line-level "
+        "pre-emptions inside ceos_alos2 frames); each "
         "schedule is one evaluation; distinct key = (scenario, digest of the actor order at all "
         "decision points)")
 ASSUMPTIONS = [
@@ -72,7 +73,8 @@ def generate(rng, tier, index):
             actors.append({"image": img, "copy": copy, "selections": sels})
         sets.append({"scenario": scenario, "actors": actors})
     k = 12 if tier == "quick" else 40
-    modes = ["random"] if tier == "quick" else ["random", "random", "pct", "line"]
+    modes = ["random", "random", "random", "pct", "line"] if tier == "quick" else \
+        ["random", "random", "pct", "line"]
     return {"world": wp, "rpc": r, "sets": sets, "schedules": k,
             "sched_seed": rng.randrange(2**31), "modes": modes}
 
